@@ -24,3 +24,8 @@ register_meta('C14', level='proof', explanation='round-trip contracts per TIMEX 
               assumptions=['re.match on the anchored TimexRegex patterns modelled structurally (pyvc/rxstruct.py)',
                            'str(Decimal) uninterpreted, injective, assumed to have the amount shape (false for exponent notation, e.g. 1E-8)',
                            '(start,end,duration) range TIMEX strings and Timex(...) keyword construction with partial time fields are not covered'])
+
+register_meta('C17', level='proof', explanation='culture routing case split + model cache contracts with ghost origin',
+              assumptions=['culture codes are lower-case-able ASCII of the form word or word-word; other shapes (digits, spaces) are not covered',
+                           'cache modelled with two arbitrary pre-existing consistent entries; factory with two constructors',
+                           'a registered constructor builds a model for exactly its (type, culture) and the given options (ghost origin)'])
